@@ -5,6 +5,7 @@ import (
 	"go/ast"
 	"go/token"
 	"go/types"
+	"golang.org/x/tools/go/packages"
 	"sort"
 	"strings"
 
@@ -22,6 +23,34 @@ func shareApp(m *model.Model) (*model.SC, *ast.FuncLit) {
 		return nil, nil
 	}
 	return sc, sc.App
+}
+
+// shareRefCount: the reference counter of Share, identified by what is done with it (whatever it is called): the
+// integer variable of ShareWithConfig that the subscribe closure increments and a teardown decrements.
+func shareRefCount(m *model.Model, sc *model.SC) types.Object {
+	info := sc.Pkg.TypesInfo
+	incd, decd := map[types.Object]bool{}, map[types.Object]bool{}
+	ast.Inspect(sc.Lit.Body, func(n ast.Node) bool {
+		if s, ok := n.(*ast.IncDecStmt); ok {
+			if id, ok := s.X.(*ast.Ident); ok {
+				if v, isVar := objOf(info, id).(*types.Var); isVar && !(sc.Lit.Pos() <= v.Pos() && v.Pos() <= sc.Lit.End()) {
+					if s.Tok == token.INC {
+						incd[v] = true
+					} else {
+						decd[v] = true
+					}
+				}
+			}
+		}
+		return true
+	})
+	var out types.Object
+	for v := range incd {
+		if decd[v] && (out == nil || v.Pos() < out.Pos()) {
+			out = v
+		}
+	}
+	return out
 }
 
 // SHARE-GUARDED
@@ -359,10 +388,11 @@ func ruleRefcountPairing() check.Rule {
 			p := sc.Pkg
 			info := p.TypesInfo
 			h := newHeldDB(m)
+			refVar := shareRefCount(m, sc)
 			var inc, dec []*ast.IncDecStmt
 			ast.Inspect(sc.Lit.Body, func(n ast.Node) bool {
 				if s, ok := n.(*ast.IncDecStmt); ok {
-					if id, ok := s.X.(*ast.Ident); ok && id.Name == "refCount" {
+					if id, ok := s.X.(*ast.Ident); ok && refVar != nil && objOf(info, id) == refVar {
 						if s.Tok == token.INC {
 							inc = append(inc, s)
 						} else {
@@ -404,7 +434,7 @@ func ruleRefcountPairing() check.Rule {
 						zeroTest := false
 						ast.Inspect(tr.Val.Lit.Body, func(n ast.Node) bool {
 							if be, ok := n.(*ast.BinaryExpr); ok && be.Op == token.EQL {
-								if id, ok := ast.Unparen(be.X).(*ast.Ident); ok && id.Name == "refCount" && constIs(info, be.Y, 0) && muHeld(be) && be.Pos() > dec[0].Pos() {
+								if id, ok := ast.Unparen(be.X).(*ast.Ident); ok && refVar != nil && objOf(info, id) == refVar && constIs(info, be.Y, 0) && muHeld(be) && be.Pos() > dec[0].Pos() {
 									zeroTest = true
 								}
 							}
@@ -698,6 +728,7 @@ func ruleResetReleases() check.Rule {
 			p := sc.Pkg
 			info := p.TypesInfo
 			locals := directLocals(info, app)
+			refVar := shareRefCount(m, sc)
 			// the reset-like closure(s): assign nil to application-level variables
 			var resetVar types.Object
 			var resetLit *ast.FuncLit
@@ -877,7 +908,7 @@ func ruleResetReleases() check.Rule {
 						zero := func(cond ast.Expr, polarity bool) bool {
 							return implies(cond, polarity, func(e ast.Expr) int {
 								if be, ok := ast.Unparen(e).(*ast.BinaryExpr); ok && (be.Op == token.EQL || be.Op == token.NEQ) {
-									if rid, ok := ast.Unparen(be.X).(*ast.Ident); ok && rid.Name == "refCount" && constIs(info, be.Y, 0) {
+									if rid, ok := ast.Unparen(be.X).(*ast.Ident); ok && refVar != nil && objOf(info, rid) == refVar && constIs(info, be.Y, 0) {
 										if be.Op == token.EQL {
 											return +1
 										}
@@ -942,6 +973,7 @@ func ruleResetReleases() check.Rule {
 				rv := recvObj(rinfo, fd)
 				okAdd := false
 				var addCall, subscribeCall *ast.CallExpr
+				var resetBody *ast.BlockStmt
 				ast.Inspect(fd.Body, func(x ast.Node) bool {
 					call, ok := x.(*ast.CallExpr)
 					if !ok {
@@ -955,11 +987,15 @@ func ruleResetReleases() check.Rule {
 					}
 					if name, isSub := m.Obj.SubscriptionMethods[model.Callee(rinfo, call)]; isSub && name == "Add" {
 						addCall = call
-						if lit, ok := ast.Unparen(call.Args[0]).(*ast.FuncLit); ok {
-							ast.Inspect(lit.Body, func(y ast.Node) bool {
+						for _, b := range resolveFuncBodies(m, m.Obj.Ro, call.Args[0]) {
+							resetBody = b.Body
+							inspectTransitive(m, b.Pkg, b.Body, 3, func(q *packages.Package, y ast.Node) bool {
 								if as, ok := y.(*ast.AssignStmt); ok {
 									for _, l := range as.Lhs {
-										if fs := fieldSelOf(rinfo, l, rv); fs != nil && fs.Sel.Name == "subject" {
+										if fs := fieldSelOf(q.TypesInfo, l, rv); fs != nil && fs.Sel.Name == "subject" {
+											okAdd = true
+										}
+										if fs := recvFieldSel(m, q, l); fs != nil && fs.Sel.Name == "subject" {
 											okAdd = true
 										}
 									}
@@ -971,8 +1007,8 @@ func ruleResetReleases() check.Rule {
 					return true
 				})
 				// the decision to install a fresh subject is the configuration's alone
-				if okAdd && addCall != nil {
-					lit := ast.Unparen(addCall.Args[0]).(*ast.FuncLit)
+				if okAdd && addCall != nil && resetBody != nil {
+					lit := &ast.FuncLit{Type: &ast.FuncType{Func: resetBody.Pos()}, Body: resetBody}
 					foreign := token.NoPos
 					var visit func(n ast.Node, conds []ast.Expr)
 					visit = func(n ast.Node, conds []ast.Expr) {
